@@ -23,7 +23,7 @@ def budget(tier):
 
 @st.composite
 def strategy_(draw):
-    rs = draw(pipeline.ref_dataset_specs(max_levels=3, max_leaves=7, min_leaves=2))
+    rs = draw(pipeline.ref_dataset_specs(max_levels=3, max_leaves=7, min_leaves=2, allow_odd=True))
     ng = rs['n_genes']
     drop = draw(st.lists(st.integers(0, ng - 1), max_size=max(0, ng // 5), unique=True))
     qgenes = [f'g{i}' for i in range(ng) if i not in drop] + ['novel_a', 'novel_b'][:draw(st.integers(0, 2))]
